@@ -21,6 +21,7 @@ oracle/search : on the implementation: cast_string(_to_string(v)) == v (typed) o
                 only oracle is "pyGAPS error or unchanged value"
 """
 import math
+import copy
 import os
 import random
 import re
@@ -29,6 +30,7 @@ import numpy as np
 
 import vlib
 from props import codec_common as cc
+from props import codec_hist as ch
 from props import c06
 
 MANIFEST = dict(
@@ -68,7 +70,11 @@ MANIFEST = dict(
          "line; ~110 generated workbooks cell by cell; ~110 generated AIF blocks item by item; and their re-imported state). The theorems stop at "
          "the constructor call and take repr / float() / _from_list / pandas' cell reader / to_numeric / dtype names / astype / the xlwt+xlrd cell "
          "codec / gemmi through explicit premises or oracles. NOT modelled in Coq: pandas quoting, the .xls byte format, CIF text syntax: beyond the "
-         "modelled fragments the round trips are judged on the implementation by a field-by-field oracle over generated isotherms (validation).",
+         "modelled fragments the round trips are judged on the implementation by a field-by-field oracle over generated isotherms (validation). Round 4: the parsers' "
+         "results must be FRESH objects - for a third of the round trips of every format the imported copy is edited in place (list / dict valued "
+         "metadata and material properties, model ranges and parameters, a cell, a new key) and the same text / file is imported again; the second "
+         "import must equal the first (module-level caches or shared defaults in the parsers); this is judged on the implementation only: the Coq "
+         "models take _from_list as a pure function and cannot express object sharing.",
     note="Trusted: Coq kernel; Python float()/repr()/int()/str()/ast.literal_eval as oracles (finite tables per case in the correspondences); pandas "
          "CSV reader/writer on homogeneous columns, pandas dtype names / astype, xlwt/xlrd (the model of their cell codec is compared cell by cell "
          "on every run), gemmi; numpy round(8) = exact rounding away from ties; the translators py2v_tables / py2v_xl; the harness.",
@@ -333,6 +339,31 @@ def do_roundtrip(fmt, iso, k, target):
             os.remove(path)
 
 
+def do_reimport(fmt, iso, k, target, edit_seed):
+    """export; import; edit IN PLACE every mutable object the imported copy holds; import the SAME text / file again
+    -> (state of the first import before the edit, state of the second import, edits) or None when a step raises"""
+    import pygaps.parsing as pp
+    os.makedirs(SCR, exist_ok=True)
+    ext = {'csv': 'csv', 'aif': 'aif', 'xl': 'xls'}[fmt]
+    path = os.path.join(SCR, 'c07r_%d_%d.%s' % (os.getpid(), k, ext))
+    to = {'csv': pp.isotherm_to_csv, 'aif': pp.isotherm_to_aif, 'xl': pp.isotherm_to_xl}[fmt]
+    frm = {'csv': pp.isotherm_from_csv, 'aif': pp.isotherm_from_aif, 'xl': pp.isotherm_from_xl}[fmt]
+    try:
+        try:
+            doc = to(iso, path if (target == 'file' or fmt == 'xl') else None)
+            src = path if (target == 'file' or fmt == 'xl') else doc
+            j = frm(src)
+            snap = copy.deepcopy(cc.observe(j))
+            edits = ch.edit_in_place(j, random.Random(edit_seed))
+            j2 = frm(src)
+        except Exception:  # noqa  (judged by the plain round trip)
+            return None
+        return snap, cc.observe(j2), edits
+    finally:
+        if os.path.exists(path):
+            os.remove(path)
+
+
 def close8(a, b):
     a, b = cc.py(a), cc.py(b)
     if isinstance(a, bool) or isinstance(b, bool) or isinstance(a, str) or isinstance(b, str):
@@ -461,6 +492,11 @@ def roundtrips(rep0, tier, seed):
     for fmt in ('csv', 'aif', 'xl'):
         specs = gen_specs(rnd, fmt, n)
         for k, spec in enumerate(specs):
+            again = (k % 3 == 0)
+            if again and fmt == 'csv':        # list-valued metadata of the CSV value domain (numbers / booleans)
+                r2 = random.Random('c07-re-list/%d/%d' % (seed, k))
+                if r2.random() < 0.6:
+                    spec['meta'][r2.choice(['cycles', 'steps', 'flags'])] = r2.choice([[1, 2, 3], [0.5, 1.5], [True, False], [7]])
             try:
                 iso = cc.build(spec)
             except Exception:  # noqa
@@ -468,6 +504,20 @@ def roundtrips(rep0, tier, seed):
                 continue
             o0 = cc.observe(iso)
             target = ('string' if k % 3 == 2 else 'file') if fmt == 'aif' else ('file' if k % 3 == 2 else 'string')
+            if again:
+                # import -> in-place edit of the imported copy -> second import of the same text: must equal the first import
+                es = 'c07-re/%d/%s/%d' % (seed, fmt, k)
+                tgt2 = target if fmt != 'aif' else 'file'      # (AIF text import: known finding C07-F2)
+                ri = do_reimport(fmt, iso, k, tgt2, es)
+                if ri is not None:
+                    hist[fmt + '/second-import-after-edit'] = hist.get(fmt + '/second-import-after-edit', 0) + 1
+                    d2 = content_diff(ri[0], ri[1])
+                    if d2:
+                        rep.failure('C07:unclassified:%s:second-import-after-in-place-edit:%s' % (fmt, d2[0]),
+                                    '%s: the imported isotherm was edited in place (%s); importing the SAME %s again gives an isotherm that differs from the first import in %s' % (
+                                        fmt, ri[2], 'file' if tgt2 == 'file' or fmt == 'xl' else 'text', d2),
+                                    {'fmt': fmt, 'spec': c06_js(spec), 'target': tgt2, 'kind': 'reimport', 'edit_seed': es, 'detail': str(d2)[:300]})
+                        continue
             exp, imp, j, msg = do_roundtrip(fmt, iso, k, target)
             rp = {'fmt': fmt, 'spec': c06_js(spec), 'target': target}
             key = '%s/%s' % (fmt, spec['cls'])
@@ -1052,7 +1102,9 @@ def explore(rep, tier, seed):
                        'at the first / a middle / the last row of the pressure, loading and extra columns or in the model parameters and ranges; '
                        '(d) ~110 generated isotherms + directed texts through the Coq model of the CSV document; (e) ~110 generated isotherms (half with '
                        'special values) + directed falsy metadata through the Coq model of the Excel workbook, cell by cell; (f) ~110 generated isotherms + '
-                       'directed texts through the Coq model of the AIF block, item by item. non-trivial = '
+                       'directed texts through the Coq model of the AIF block, item by item; (g) for a third of the round trips of every format: import, '
+                       'in-place edit of every mutable object the imported copy holds (list / dict valued metadata and material properties, model ranges and '
+                       'parameters, a table cell, a new metadata key), second import of the same text / file: must equal the first import. non-trivial = '
                        'distinct (format, class, typed metadata shape, rows, unit labels) preserved by the round trip + distinct (result kind, length) of (a)')
     rep.cov['input_distribution'] = dict(sorted(hist.items()))
     rep.cov['trusted_base'] += ['oracles: Python float()/repr()/int()/str()/ast.literal_eval; pandas to_csv/read_csv/dtype/astype; xlwt/xlrd; gemmi.cif',
@@ -1072,6 +1124,15 @@ def replay(d):
         return 1
     iso = cc.build(r['spec'])
     o0 = cc.observe(iso)
+    if r.get('kind') == 'reimport':
+        ri = do_reimport(r['fmt'], iso, 0, r.get('target', 'string'), r['edit_seed'])
+        print('format', r['fmt'], '| in-place edits of the first import:', ri[2] if ri else None)
+        if ri:
+            print('first import (before the edit) vs second import of the same text:', content_diff(ri[0], ri[1]))
+            print('metadata:', ri[0]['meta'], '->', ri[1]['meta'])
+            if ri[0]['cls'] == 'model':
+                print('model:', ri[0]['model'], '->', ri[1]['model'])
+        return 1
     exp, imp, j, msg = do_roundtrip(r['fmt'], iso, 0, r.get('target', 'string'))
     print('format', r['fmt'], 'export:', exp, 'import:', imp, msg)
     if j is not None:
